@@ -26,6 +26,15 @@ class Finding:
                                               self.rule, self.key, self.msg)
 
 
+#: rules that read the shape of a whole function; their findings are withheld in a function
+#: whose body contains inlined helper code (see Ctx.ob)
+WHOLE_SHAPE_RULES = ('SCHED-', 'Q-PSD', 'P0-FORM', 'LAYOUT-', 'BUF-', 'CARRIER', 'KERNEL-VIA',
+                     'TAIL-SLICE', 'PREDICT-EFF', 'DEF-PATH', 'KEY-REBIND', 'STEP-BOUND',
+                     'RES-COLLECT', 'RESULT-FORM', 'ASSEMBLY', 'INIT-STATE', 'AVG-RATE',
+                     'INTERP-', 'EST-', 'REC-ORDER', 'CORR-PAIR', 'SD-TRANSFORM', 'FF-COMP',
+                     'VL-', 'KAL-', 'PROP-CONSIST', 'SIM-', 'DIFF-', 'RES-', 'SM-')
+
+
 class Ctx:
     def __init__(self, prop, tier='quick', root=None, write_evidence=True):
         self.prop = prop
@@ -80,7 +89,13 @@ class Ctx:
                                  'holds' if ok else ('unknown' if ok is None else 'VIOLATED'),
                                  'definite': bool(definite and ok is not None)})
         if ok is False:
-            opaque = self._opaque_helpers(f)
+            opaque = set(self._opaque_helpers(f))
+            if not rule.startswith(WHOLE_SHAPE_RULES):
+                # rules that judge a local construct (and follow helpers themselves where they
+                # need to) are as reliable as ever; only the rules that read the shape of a
+                # whole function (loop structure, stage order, buffer arithmetic) are not, on a
+                # function restructured around helpers
+                opaque = set()
             if opaque:
                 # the function (still) calls helpers that did not exist on the pinned tree and
                 # could not be read in place: what a structural rule misses here may simply be
